@@ -73,35 +73,46 @@ READS = ('get', 'contains', 'touch', 'len', 'iter', 'reversed', 'iterkeys', 'sta
 # driver: sequential runner that also records what volume() returned and an independent volume after each call
 
 
-def volume_and_sizes(directory):
-    """(volume, size hits) of one cache directory, read through one connection of the harness.
-    volume: what the cache occupies, seen from outside: the pages of the database plus the bytes the stored values take -- the size counter of
-    the Settings table, corrected by the difference between the recorded size of every row kept in a file and the size that file really has
-    (no difference as long as every row records the size of its file).
-    size hits: [(sig, text)] -- the size limit is about what the cache occupies, so the size recorded for an item kept in a file is the
-    size of that file."""
+def occupied(directory):
+    """What one cache directory occupies, read through one connection of the harness and WITHOUT trusting the size counter:
+    pages: bytes of the database pages; counter: the `size` entry of the Settings table (what volume() adds to the pages);
+    recorded: the sum of the sizes recorded in the rows; on_disk: the same sum with, for every row kept in a file that exists,
+    the size that file really has; hits: [(sig, text)] -- the size limit is about what the cache occupies, so the size recorded for
+    an item kept in a file is the size of that file, and the size counter volume() reports is the sum over the rows that are there."""
     con = sqlite3.connect(os.path.join(directory, 'cache.db'))
     try:
         ((pc,),) = con.execute('PRAGMA page_count').fetchall()
         ((ps,),) = con.execute('PRAGMA page_size').fetchall()
         ((sz,),) = con.execute('SELECT value FROM Settings WHERE key = "size"').fetchall()
+        ((recorded, nrows),) = con.execute('SELECT COALESCE(SUM(size), 0), COUNT(*) FROM Cache').fetchall()
         rows = con.execute('SELECT key, filename, size FROM Cache WHERE filename IS NOT NULL ORDER BY rowid').fetchall()
     finally:
         con.close()
-    vol, hits = pc * ps + sz, []
+    on_disk, hits = recorded, []
     for key, filename, size in rows:
         try:
             real = os.path.getsize(os.path.join(directory, filename))
         except OSError:
             continue            # no such file: C08 / C17
         if size != real:
-            vol += real - (size or 0)
+            on_disk += real - (size or 0)
             if not hits:
                 key = bytes(key) if isinstance(key, memoryview) else key
                 hits.append(('recorded_size_differs_from_file', 'the row of key %r records size %r, its value file %s holds %d bytes (volume() counts the recorded sizes, '
                              'so the size limit is compared with a volume that is off by the difference)' % (
                                  key if not isinstance(key, bytes) else '<%d bytes>' % len(key), size, filename, real)))
-    return vol, hits
+    if sz != recorded:
+        hits.append(('volume_differs_from_occupied', 'volume() reports %d bytes (%d of database pages + a size counter of %d) but the %d row(s) that are there record '
+                     '%d bytes of values (%d on disk): the size limit is compared with a volume that is off by %d bytes' % (
+                         pc * ps + sz, pc * ps, sz, nrows, recorded, on_disk, sz - recorded)))
+    return {'pages': pc * ps, 'counter': sz, 'recorded': recorded, 'on_disk': on_disk, 'hits': hits}
+
+
+def volume_and_sizes(directory):
+    """(volume, size hits) of one cache directory.  volume: what the cache occupies, seen from outside: the pages of the database plus
+    the bytes the stored values take (see occupied: rows and files, not the size counter)."""
+    o = occupied(directory)
+    return o['pages'] + o['on_disk'], o['hits']
 
 
 def independent_volume(directory):
@@ -120,6 +131,7 @@ class Runner9(seqdrv.Runner):
         self.readings_per_call = []
         self.post_per_call = []
         self.size_hits_per_call = []
+        self.drift_per_call = []        # size counter minus the sizes recorded in the rows, after every call
         self.vol0 = independent_volume(self.dir)
         readings = self.readings
 
@@ -134,9 +146,10 @@ class Runner9(seqdrv.Runner):
         del self.readings[:]
         out = super().call(item)
         self.readings_per_call.append(list(self.readings))
-        vol, bad = volume_and_sizes(self.dir)
-        self.post_per_call.append(vol)
-        self.size_hits_per_call.append(bad)
+        o = occupied(self.dir)
+        self.post_per_call.append(o['pages'] + o['on_disk'])
+        self.size_hits_per_call.append(o['hits'])
+        self.drift_per_call.append(o['counter'] - o['recorded'])
         return out
 
 
@@ -184,12 +197,18 @@ class Monitor:
     def expired(self, row, now):
         return row['exp'] is not None and row['exp'] <= now
 
-    def step(self, op, target, now, result, before, after, readings, post_vol, stored_key=None, written_size_upper=None):
+    def step(self, op, target, now, result, before, after, readings, post_vol, stored_key=None, written_size_upper=None, drift=None):
         """op: API name; target: (dbkey, raw) the call addresses (or None); result: python result of the call;
         before/after: rowdict; readings: values returned by volume() during the call; post_vol: volume seen by an
         independent connection after the call; stored_key: for push the key returned; written_size_upper: an upper bound
-        on the size of the value the call stores (only used when a call evicts without consulting volume())."""
+        on the size of the value the call stores (only used when a call evicts without consulting volume());
+        drift: (before, after) the call: size counter minus the sizes recorded in the rows -- when the call itself left it unchanged, every
+        volume() it read was off by exactly that much, so the eviction is judged by what the cache really occupied."""
         out = []
+        corrected = ''
+        if drift is not None and drift[0] == drift[1] and drift[0] != 0 and readings:
+            corrected = ' (occupied: volume() returned %r, its size counter was off by %r)' % (readings[-1], drift[0])
+            readings = [v - drift[0] for v in readings]
         st = self.stats
         st['calls'] += 1
         L = self.ledger
@@ -284,8 +303,8 @@ class Monitor:
                 else:
                     if readings:
                         if readings[-1] < limit:
-                            out.append(('evicted_below_limit', '%s evicted unexpired row key=%r at volume %r < size_limit %r'
-                                        % (op, pol_gone[0]['k'][0], readings[-1], limit)))
+                            out.append(('evicted_below_limit', '%s evicted unexpired row key=%r at volume %r < size_limit %r%s'
+                                        % (op, pol_gone[0]['k'][0], readings[-1], limit, corrected)))
                     else:
                         # the call never read volume(): bound the volume at the time of the eviction from outside
                         known = [r['size'] for r in pol_gone if r['size'] is not None]
@@ -398,7 +417,9 @@ STREAMS = {
 }
 
 
-def make_history(rng, cfg, stream, n, nkeys, big=False, cull_weight=3, nonascii=False):
+def make_history(rng, cfg, stream, n, nkeys, big=False, cull_weight=3, nonascii=False, overwrite=False):
+    """overwrite: few keys, mostly stores, as many inline values as file-backed ones and short ttls -- the same key goes from a value kept in a
+    file to one kept in the database and back, by set, by add / incr on an expired item, over and over"""
     steps, _ = STREAMS[stream]
     # integer keys are kept outside (0, 999999999999999): inside it they would be members of the default push queue
     keys = [10 ** 15 + i for i in range(1, nkeys // 2 + 1)] + ['k%d' % i for i in range(nkeys - nkeys // 2)]
@@ -407,6 +428,13 @@ def make_history(rng, cfg, stream, n, nkeys, big=False, cull_weight=3, nonascii=
     g = gen_hist.Gen(rng, cfg, weights=weights, keys=keys, ttls=[None, None, None, None, None, 1, 2, 5, TICK],
                      prefixes=[None, None, 'q'], steps=steps)
     g.vals = big_values() if big else small_values()
+    if overwrite:
+        g = gen_hist.Gen(rng, cfg, weights={'set': 46, 'add': 12, 'incr': 10, 'get': 10, 'touch': 2, 'delete': 2, 'pop': 1, 'contains': 1, 'cull': cull_weight,
+                                            'expire': 1, 'len': 1},
+                         keys=keys, ttls=[None, None, None, TICK, TICK, 1, 2], prefixes=[None], steps=steps)
+        g.counter_keys = list(keys[:2])          # incr goes to the keys that also hold file-backed values (an expired one is replaced by the counter)
+        filed = [v for v in (big_values() if big else small_values()) if not isinstance(v, int) and v != 'ab']
+        g.vals = filed + [3, 7, 'ab', 0, 'x', 12][:max(3, len(filed) - 1)]
     if nonascii:
         g.vals = g.vals + text_values(big)
     hist = g.history(n)
@@ -473,8 +501,10 @@ def monitor_trace(r, tr, cfg, stats):
             stored_key = (rec['res'], 1)
         p0 = stats['writes_evicted_policy'] + stats['cull_evicted_policy']
         wsu = size_upper(r.objs[item['args']['v']], cfg.protocol) if 'v' in item['args'] else 64
+        dpc = getattr(r, 'drift_per_call', [])
+        drift = (dpc[i - 1] if i > 0 else 0, dpc[i]) if i < len(dpc) else None
         for sig, desc in mon.step(op, target, item['now'], rec['res'], before, after, r.readings_per_call[i],
-                                  r.post_per_call[i], stored_key, wsu):
+                                  r.post_per_call[i], stored_key, wsu, drift=drift):
             hits.append((i, sig, desc))
         if stats['writes_evicted_policy'] + stats['cull_evicted_policy'] > p0:
             evicted = True
@@ -540,16 +570,20 @@ def shrink(ctx, cfg, objs, hist, index, sig, budget=40):
     return ops
 
 
-def monitored_histories(ctx, res, stats, plan, keep_for_model=None, want_shrink=True):
+def monitored_histories(ctx, res, stats, plan, keep_for_model=None, want_shrink=True, overwrite=False):
     """plan: list of (policy, cull_limit, stream, length, nkeys, big).  Runs each history on the implementation under the
     monitor; appends (runner, trace, cfg, objs, hist) to keep_for_model for small-value histories."""
     seen_sigs = set()
     for (policy, cull_limit, stream, n, nkeys, big) in plan:
         cfg = config_for(ctx.rng, policy, cull_limit, big)
         cw = 8 if cull_limit == 0 else 3
-        g, hist = make_history(ctx.rng, cfg, stream, n, nkeys, big, cull_weight=cw, nonascii=keep_for_model is None)
+        g, hist = make_history(ctx.rng, cfg, stream, n, nkeys, big, cull_weight=cw, nonascii=keep_for_model is None and not overwrite, overwrite=overwrite)
         r, tr = run_history(ctx, cfg, g.objs, hist)
-        ckey = '%s/cull_limit=%d/%s%s' % (policy, cull_limit, stream, '/big' if big else '')
+        ckey = '%s/cull_limit=%d/%s%s%s' % (policy, cull_limit, stream, '/big' if big else '', '/overwrite' if overwrite else '')
+        if overwrite:
+            sizes = [dict((row[1] if not isinstance(row[1], memoryview) else bytes(row[1]), row[8]) for row in rec['obs'][0]) for rec in tr.calls]
+            stats['file_to_inline_overwrites'] = stats.get('file_to_inline_overwrites', 0) + sum(
+                1 for a, b in zip(sizes, sizes[1:]) for k_ in a if a[k_] and k_ in b and not b[k_])
         stats['configs'][ckey] = stats['configs'].get(ckey, 0) + 1
         p0 = (stats['writes_evicted_policy'], stats['writes_evicted_expired'], stats['cull_evicted_policy'])
         hits = monitor_trace(r, tr, cfg, stats)
@@ -1919,6 +1953,28 @@ def plan_for(ctx, per_combo, length, big_every=0):
     return plan
 
 
+def overwrite_plan(ctx, n):
+    """(policy, cull_limit, stream, length, nkeys, big) of the overwrite histories: evicting policies and none, every cull_limit, both clocks,
+    small and (every fourth) large values; drawn from a generator of their own so that the other families see the random stream they always saw"""
+    import random
+    rng = random.Random('C09-overwrite-%d' % ctx.seed)
+    plan = []
+    for j in range(n):
+        plan.append((POLICIES[j % len(POLICIES)], CULL_LIMITS[(j // len(POLICIES) + j) % len(CULL_LIMITS)], 'ties' if j % 3 == 2 else 'increasing',
+                     rng.choice([60, 90]), rng.choice([3, 4, 6]), j % 4 == 3))
+    return plan
+
+
+def overwrite_histories(ctx, res, stats, n):
+    import random
+    saved = ctx.rng
+    ctx.rng = random.Random('C09-overwrite-hist-%d' % ctx.seed)
+    try:
+        monitored_histories(ctx, res, stats, overwrite_plan(ctx, n), overwrite=True)
+    finally:
+        ctx.rng = saved
+
+
 RULE = ('random histories of set/add/get/incr/push/touch/delete/pop/contains/cull/expire on a Cache under a virtual clock, for each eviction policy x '
         'cull_limit in {0,1,2,10}; values are file-backed with sizes in multiples of 10 bytes (plus a few inline ones) and size_limit = '
         'volume(empty) + {60..300}, so that Settings.size decides and volume == size_limit is hit exactly; a separate stream uses 1-6 kB '
@@ -1951,7 +2007,12 @@ RULE = ('random histories of set/add/get/incr/push/touch/delete/pop/contains/cul
         '{300, 600, 900}), every policy, cull_limit 0 (mostly), 1, 10; 80-100 % of the sets (some with ttls) go to keys routed to ONE shard (integer '
         'multiples of the shard count, text keys), so that this shard exceeds size_limit / shards while the sum of the shard volumes stays within '
         'size_limit; cull() is called in that state, after the clock has moved past the ttls, and at the end: every shard ends at or below its own '
-        'limit or empty, no expired row is left in any shard, policy order per shard, and the returned count is the number of rows that disappeared.')
+        'limit or empty, no expired row is left in any shard, policy order per shard, and the returned count is the number of rows that disappeared.  '
+        'Overwrites: histories over 3-6 keys, mostly stores, half of the values inline and half file-backed, ttls of 2^-10..2 s, so that the same key goes '
+        'from a value kept in a file to one kept in the database and back (set; add and incr on an expired item) again and again; every policy and '
+        'cull_limit, both clocks, small and large values.  After EVERY call of every history the volume the cache reports (database pages + its size '
+        'counter) must be what the rows that are there occupy (pages + the sizes recorded in the rows; files as they are on disk), and an eviction is '
+        'judged by the occupied volume: when the counter is off, the readings of volume() are corrected by the difference before "below the limit" is decided.')
 
 
 def report(res):
@@ -1989,6 +2050,7 @@ def run(ctx):
     import random
     handle_limit_checks(ctx, res, stats, handle_limit_cases(random.Random('C09-handles-%d' % ctx.seed), ctx.quick))
     skewed_cull_checks(ctx, res, stats, skewed_cull_cases(random.Random('C09-skew-%d' % ctx.seed), ctx.quick))
+    overwrite_histories(ctx, res, stats, 16 if ctx.quick else 160)
     witnesses(res)
     if not ctx.search_mode:
         correspondence(ctx, res, stats, kept)
@@ -2025,6 +2087,7 @@ def search(ctx, broken):
     import random
     handle_limit_checks(ctx, res, stats, handle_limit_cases(random.Random('C09-handles-search-%d' % ctx.seed), ctx.quick))
     skewed_cull_checks(ctx, res, stats, skewed_cull_cases(random.Random('C09-skew-search-%d' % ctx.seed), ctx.quick))
+    overwrite_histories(ctx, res, stats, 24 if ctx.quick else 120)
     witnesses(res)
     report(res)
     return res
